@@ -281,6 +281,18 @@ func genHub(c *ctx) *leanFile {
 		}
 	}
 	l.boolean("resumeClearsExpiry", resumeClears && sawDelete, fdHello != nil, "Hub.processHello not found")
+
+	// an ended session is taken off the list of federated sessions (Hub.removeSession, the path of every ending)
+	fdRemove := findFunc(hub, "Hub", "removeSession")
+	fedCleared := false
+	if fdRemove != nil {
+		for _, call := range callsOf(fdRemove, "delete") {
+			if len(call.Args) == 2 && selectorEndsWith(call.Args[0], "federatedSessions") {
+				fedCleared = true
+			}
+		}
+	}
+	l.boolean("federatedClearedOnRemove", fedCleared, fdRemove != nil, "Hub.removeSession not found")
 	return l
 }
 
